@@ -714,7 +714,7 @@ pub fn build_cases(ctx: &Ctx, seeds: &[Seed]) -> Vec<Case> {
                 let cur = get_field(b, fl);
                 // one-byte fields (log2 sizes): a grid that reaches the sizes where an allocation
                 // or a shift goes wrong, not only the ends
-                let lg_grid: Vec<u64> = if fl.width == 1 { ctx.tier.pick(vec![8, 20, 26, 30, 31, 32, 63, 64], (3..=34).chain([40, 48, 56, 62, 63, 64, 65, 127, 128]).collect()) } else { vec![] };
+                let lg_grid: Vec<u64> = if fl.width == 4 { vec![3, 4, 5, 6, 8, 9] } else if fl.width == 1 { ctx.tier.pick(vec![2, 3, 4, 8, 20, 26, 30, 31, 32, 63, 64], (2..=34).chain([40, 48, 56, 62, 63, 64, 65, 127, 128]).collect()) } else { vec![] };
                 let mut v: Vec<u64> = if ctx.tier == Tier::Thorough { vec![0, 1, 2, 3, 7, 8, max, max - 1, max / 2, max / 2 + 1, cur.wrapping_add(1) & max, cur.wrapping_sub(1) & max, cur.wrapping_mul(2) & max, 1 << (bits - 2), 1 << (bits - 1), 255 & max, 16 & max, 64 & max] } else { vec![0, max, cur.wrapping_add(1) & max] };
                 v.extend(lg_grid);
                 v.sort_unstable();
